@@ -140,6 +140,10 @@ Model g_modelThread, g_modelSocket;
 // after a concurrent storm the model no longer describes the backend; what is known then is only that
 // every small class (<= 2 KB) has plenty of free pieces (see stormCase)
 bool g_stormHappened[2] = {false, false};
+// PerSocketStorage moves: does the moved-from object release the offset (today's behaviour, a known defect) or
+// not (after a fix)? Found out by a probe at the start of the PerSocketStorage.move process; only the
+// availability model depends on it.
+bool g_pssMoveProbed = false, g_pssMoveReleases = false;
 constexpr unsigned STORM_MAX_CLS = 11;
 
 struct PtsStats {
@@ -206,7 +210,7 @@ struct PtsCase {
       beforeFree(c, b);
   }
 
-  StoBase* create(unsigned typeIdx, int tid) {
+  StoBase* create(unsigned typeIdx, int tid, bool probing = false) {
     unsigned ll  = classOf(FACT[typeIdx].sz);
     auto path    = M.pathFor(ll);
     unsigned nlb = M.nextLoc;
@@ -219,7 +223,10 @@ struct PtsCase {
     ++st.creates;
     // follow the model (availability only)
     bool fromBump = s->offset >= (long)nlb;
-    if ((path == Model::BUMP) != fromBump || (path == Model::BUMP && s->offset != (long)nlb)) {
+    if (probing && path == Model::BUMP && s->offset + (long)(1u << ll) == (long)nlb) {
+      // the probe's answer: the offset released by the moved-from object came straight back
+      g_pssMoveReleases = true;
+    } else if ((path == Model::BUMP) != fromBump || (path == Model::BUMP && s->offset != (long)nlb)) {
       M.lost = true;
       if (fromBump)
         M.nextLoc = std::max<unsigned>(M.nextLoc, (unsigned)s->offset + (1u << ll));
@@ -295,15 +302,16 @@ struct PtsCase {
     }
     live[idx] = n;
     // destroying the moved-from object must not release anything: n stays live and keeps its canaries
-    if (socket)
-      M.applyFree((unsigned)s->offset, s->cls); // what the code really does today (known defect): mirror it for availability
+    if (socket && g_pssMoveReleases)
+      M.applyFree((unsigned)s->offset, s->cls); // what the library was observed to do (known defect): mirror it for availability
     runOn(tidDel, [&] { delete s; });
   }
   // a = std::move(b) for two live objects of the same type
   void moveAssign(size_t ia, size_t ib, int tid) {
     StoBase *a = live[ia], *b = live[ib];
     if (socket) {
-      // PerSocketStorage::operator=(&&) destroys a's contents and takes b's offset
+      // PerSocketStorage::operator=(&&): a gives up its own offset (at the assignment or, with swap semantics,
+      // when the moved-from b dies right below) and owns b's from now on
       retireBlocks(a);
       M.applyFree((unsigned)a->offset, a->cls);
       runOn(tid, [&] { a->moveAssignFrom(*b); });
@@ -311,11 +319,15 @@ struct PtsCase {
       a->blocks = b->blocks;
       for (auto& blk : b->blocks)
         blk.id = 0; // b no longer owns them in the harness' eyes
-      // b still believes it owns the offset (known defect): it is dropped from `live` and deleted
       live[ib] = live.back();
       live.pop_back();
-      M.applyFree((unsigned)b->offset, b->cls);
+      if (g_pssMoveReleases)
+        M.applyFree((unsigned)b->offset, b->cls); // known defect: b still believes it owns the offset
       runOn(tid, [&] { delete b; });
+      for (unsigned i = 0; i < nsock; ++i)
+        if (a->remote(leaders[i]) != a->blocks[i].p)
+          c.report(c.key("move-changed-address"),
+                   J().kv("index", i).kv("expected", hexp(a->blocks[i].p)).kv("after", hexp(a->remote(leaders[i]))).str());
     } else {
       // PerThreadStorage::operator=(&&) swaps
       runOn(tid, [&] { a->moveAssignFrom(*b); });
@@ -377,6 +389,16 @@ CaseResult serialCase(Harness& H, long k, Rng& rng, bool socket, bool moves, con
   galois::setActiveThreads(maxT);
   auto pickT = [&] { return T[rng.below(T.size())]; };
 
+  if (socket && moves && !g_pssMoveProbed && M.pathFor(8) == Model::BUMP && M.nextLoc + 1024 <= Model::LIMIT) {
+    // probe (see g_pssMoveReleases): create, move-construct, destroy the moved-from object, create again
+    g_pssMoveProbed = true;
+    if (P.create(4, -1)) {
+      P.moveConstruct(0, -1, -1);
+      P.create(4, -1, true); // overlaps the live successor iff the moved-from object released the offset (reported by the oracle)
+      while (!P.live.empty())
+        P.destroy(P.live.size() - 1, -1);
+    }
+  }
   if (exhaust) {
     ++P.st.exhaustedCases;
     // A: fill the bump region with big, then medium, then small objects
@@ -484,6 +506,29 @@ CaseResult stormCase(Harness& H, long k, Rng& rng, bool socket, const char* comp
   H.begin(k, J().kv("component", comp).kv("mode", "storm").kv("threads", n).kv("ops_per_thread", ops).kv("delayPct", delayPct)
                  .kv("maxT", maxT).kv("sockets", P.nsock).str());
   galois::setActiveThreads(n);
+  // --param precond=1: before the first storm of the process, fill the bump region with big objects and
+  // release them, so that the concurrent small requests are served from the free lists by splitting big
+  // chunks into change (otherwise the first storms run on the bump pointer until it is exhausted)
+  uint64_t preconditioned = 0;
+  if (H.paramInt("precond", 0) && !g_stormHappened[socket] && !P.M.lost) {
+    syncModel(P);
+    for (unsigned maxCls : {18u, 18u, 16u, 14u, 12u}) {
+      for (int guard = 0; guard < 32; ++guard) {
+        unsigned cand[NFACT], nc = 0;
+        for (unsigned t = 0; t < NFACT; ++t)
+          if (classOf(FACT[t].sz) == maxCls)
+            cand[nc++] = t;
+        unsigned t = cand[rng.below(nc)];
+        if (P.M.pathFor(classOf(FACT[t].sz)) != Model::BUMP)
+          break;
+        P.create(t, -1);
+      }
+    }
+    preconditioned = P.live.size();
+    std::sort(P.live.begin(), P.live.end(), [](StoBase* a, StoBase* b) { return a->offset > b->offset; });
+    while (!P.live.empty())
+      P.destroy(P.live.size() - 1, -1); // lowest offset first: every chunk but the last goes to a free list
+  }
   std::vector<StoMail> mail(n);
   std::atomic<uint64_t> creates{0}, destroys{0}, blocks{0}, aligned128{0}, opsDone{0}, leaked{0};
   unsigned nb = socket ? P.nsock : maxT;
@@ -594,7 +639,8 @@ CaseResult stormCase(Harness& H, long k, Rng& rng, bool socket, const char* comp
   J obs;
   commonObs(obs, c).kv("storm_cases", 1).kv("storm_ops", opsDone.load()).kv("storm_threads", n)
       .kv("storage_creates", creates.load()).kv("storage_destroys", destroys.load()).kv("storage_blocks", blocks.load())
-      .kv("storage_blocks_128B_aligned", aligned128.load()).kv("tainted_blocks", leaked.load()).kv("max_live", c.maxLive.load());
+      .kv("storage_blocks_128B_aligned", aligned128.load()).kv("tainted_blocks", leaked.load()).kv("max_live", c.maxLive.load())
+      .kv("storm_preconditioned_big_chunks", preconditioned);
   R.obs = obs.str();
   return R;
 }
